@@ -235,6 +235,24 @@ fn exec_supply_inner(check: &str, t: &SupplyTrace, scratch: &Scratch, rec: &mut 
     if t.caller.len() > 1 {
         rec.probe("several owner keys");
     }
+    if t.same_thread {
+        rec.probe("verified on the worker's long-lived thread (thread-local state carries over)");
+    }
+    if t.in_place {
+        rec.probe("link directory updated in place (same inodes)");
+    }
+    if t.via_symlink.is_some() {
+        rec.probe("link files delivered as symbolic links into a content store");
+    }
+    if !t.mem_sigdup.is_empty() {
+        rec.probe("signature entry repeated in the caller's memory");
+    }
+    if t.read_eio.is_some() {
+        rec.probe("hard read errors armed while verifying");
+    }
+    if t.root.layout.steps.iter().any(|s| s.name.contains('.')) {
+        rec.probe("step name with a dot");
+    }
     if t.keys.iter().any(|k| !k.kind.is_ed()) {
         rec.probe("non-ed25519 key in world");
     }
